@@ -70,7 +70,7 @@ func Load(lc *LoadConfig) (*World, error) {
 	var errs []string
 	packages.Visit(pkgs, nil, func(p *packages.Package) {
 		for _, e := range p.Errors {
-			errs = append(errs, e.Error())
+			errs = append(errs, e.Pos+": "+e.Msg)
 		}
 	})
 	if len(errs) > 0 {
